@@ -13,7 +13,7 @@ MUT = {
     "arr": "x=(1 2 3)", "assoc": "declare -A m=([k]=v)", "fdef": "newf() { :; }", "fundef": "unset -f g", "sete": "set -e", "setu": "set -u", "pipefail": "set -o pipefail", "noglob": "set -f",
     "nullglob": "shopt -s nullglob", "extglob": "shopt -s extglob", "alias": "alias na=nb", "unalias": "unalias b", "trapusr": "trap 'echo t' USR1", "trapexit": "trap 'echo bye' EXIT", "trapdbg": "trap ': dbg' DEBUG",
     "cd": "cd /", "umask": "umask 077", "ulimit": "ulimit -f 2000000", "setargs": "set -- changed", "shift": "shift", "exec3": "exec 3>../f3", "exec2": "exec 2>/dev/null", "execin": "exec </dev/null",
-    "pushd": "pushd / >/dev/null", "hashr": "hash -p /bin/true mycmd", "exit": "exit 3", "return": "return 5", "expasg": ": ${newv:=set}", "exparith": ": $((x+=5))",
+    "pushd": "pushd / >/dev/null", "hashr": "hash -p /bin/true mycmd", "exit": "exit 3", "return": "return 5", "execcmd": "exec true", "execa": "exec -a other true", "expasg": ": ${newv:=set}", "exparith": ": $((x+=5))",
 }
 # the ext* contexts run ONE external command in the subshell context; the mutations are the side effects of expanding its words
 # (mutators without an expansion form contribute nothing there: the model still says the parent is unchanged)
